@@ -185,8 +185,8 @@ def _big_frames(rng, idx, tier):
     out.append({'type': 'ERROR', 'sid': 5, 'code': 0x201, 'data': _bytes(rng, BIG[idx % len(BIG)])})
     out.append({'type': 'KEEPALIVE', 'sid': 0, 'data': _bytes(rng, BIG[idx % len(BIG)]), 'respond': True})
     if tier == 'thorough' and idx == 0:
-        out.append({'type': 'PAYLOAD', 'sid': 1, 'metadata': _bytes(rng, 2 ** 24 - 1), 'data': b'x', 'next': True})
-        out.append({'type': 'REQUEST_STREAM', 'sid': 1, 'n': 1, 'metadata': _bytes(rng, 2 ** 24 - 1), 'data': b''})
+        out.append({'type': 'PAYLOAD', 'sid': 1, 'metadata': _bytes(rng, 2 ** 24 - 32), 'data': b'x', 'next': True})
+        out.append({'type': 'REQUEST_STREAM', 'sid': 1, 'n': 1, 'metadata': _bytes(rng, 2 ** 24 - 32), 'data': b''})
     return out
 
 
